@@ -18,10 +18,20 @@ fn temp_dir(tag: &str) -> PathBuf {
 fn metric(i: usize, len: usize) -> String {
     // starts with a two-byte character when there is room, so that byte length and character count differ
     let c = (b'a' + (i % 26) as u8) as char;
-    let len = len.max(1);
-    if len >= 3 {
+    if len >= 5 {
+        // leading and trailing whitespace are ordinary metric bytes (a sink that trims them changes the payload)
+        let mut s = String::from(" \u{e9}");
+        s.extend(std::iter::repeat(c).take(len - 4));
+        s.push(' ');
+        s
+    } else if len >= 3 {
         let mut s = String::from("\u{e9}");
-        s.extend(std::iter::repeat(c).take(len - 2));
+        s.extend(std::iter::repeat(c).take(len - 3));
+        s.push(' ');
+        s
+    } else if len >= 2 {
+        let mut s: String = std::iter::repeat(c).take(len - 1).collect();
+        s.push(' ');
         s
     } else {
         std::iter::repeat(c).take(len).collect()
@@ -229,35 +239,86 @@ fn stats_concurrent(sc: &Value) -> Value {
 /// C12: many threads emitting through one shared buffered sink; the datagram stream must still be whole lines,
 /// every acknowledged metric present exactly once, each thread's metrics in its program order.
 pub fn c12_stress(sc: &Value) -> Value {
-    use cadence::BufferedUnixMetricSink;
+    use cadence::{BufferedSpyMetricSink, BufferedUdpMetricSink, BufferedUnixMetricSink};
     use std::collections::HashMap;
+    use std::net::UdpSocket;
     let threads = sc["threads"].as_u64().unwrap_or(8) as usize;
+    let only = sc["sink_ty"].as_str().unwrap_or("").to_string();
     let mut viol: Vec<Value> = vec![];
-    for round in 0..6 {
+    let kinds: Vec<&str> = ["BufferedUnixMetricSink", "BufferedUdpMetricSink", "BufferedSpyMetricSink"].into_iter().filter(|k| only.is_empty() || *k == only).collect();
+    for (round, kind) in (0..6).flat_map(|r| kinds.iter().map(move |k| (r, *k))) {
         let dir = temp_dir("c12");
         let path = dir.join("s.sock");
-        let server = UnixDatagram::bind(&path).unwrap();
-        server.set_read_timeout(Some(Duration::from_millis(400))).unwrap();
         let cap = [64usize, 50, 33, 128, 47, 96][round % 6];
-        let sink = Arc::new(BufferedUnixMetricSink::with_capacity(&path, UnixDatagram::unbound().unwrap(), cap));
         let stop = Arc::new(std::sync::atomic::AtomicBool::new(false));
         let st2 = stop.clone();
-        let reader = std::thread::spawn(move || {
-            let mut got: Vec<Vec<u8>> = vec![];
-            let mut b = [0u8; 65536];
-            loop {
-                match server.recv(&mut b) {
-                    Ok(k) => got.push(b[..k].to_vec()),
-                    Err(_) => {
-                        if st2.load(std::sync::atomic::Ordering::SeqCst) {
-                            break;
+        // datagrams can be lost on a loopback UDP socket whose receive buffer overflows: presence is not demanded there
+        let lossy = kind == "BufferedUdpMetricSink";
+        let (sink, reader): (Arc<dyn MetricSink + Send + Sync>, std::thread::JoinHandle<Vec<Vec<u8>>>) = match kind {
+            "BufferedUnixMetricSink" => {
+                let server = UnixDatagram::bind(&path).unwrap();
+                server.set_read_timeout(Some(Duration::from_millis(400))).unwrap();
+                let sink = Arc::new(BufferedUnixMetricSink::with_capacity(&path, UnixDatagram::unbound().unwrap(), cap));
+                let reader = std::thread::spawn(move || {
+                    let mut got: Vec<Vec<u8>> = vec![];
+                    let mut b = [0u8; 65536];
+                    loop {
+                        match server.recv(&mut b) {
+                            Ok(k) => got.push(b[..k].to_vec()),
+                            Err(_) => {
+                                if st2.load(std::sync::atomic::Ordering::SeqCst) {
+                                    break;
+                                }
+                            }
                         }
                     }
-                }
+                    got
+                });
+                (sink, reader)
             }
-            got
-        });
-        let per = 400usize;
+            "BufferedUdpMetricSink" => {
+                let server = UdpSocket::bind("127.0.0.1:0").unwrap();
+                server.set_read_timeout(Some(Duration::from_millis(400))).unwrap();
+                let addr = server.local_addr().unwrap();
+                let sink = Arc::new(BufferedUdpMetricSink::with_capacity(addr, UdpSocket::bind("127.0.0.1:0").unwrap(), cap).unwrap());
+                let reader = std::thread::spawn(move || {
+                    let mut got: Vec<Vec<u8>> = vec![];
+                    let mut b = [0u8; 65536];
+                    loop {
+                        match server.recv(&mut b) {
+                            Ok(k) => got.push(b[..k].to_vec()),
+                            Err(_) => {
+                                if st2.load(std::sync::atomic::Ordering::SeqCst) {
+                                    break;
+                                }
+                            }
+                        }
+                    }
+                    got
+                });
+                (sink, reader)
+            }
+            _ => {
+                let (rx, spy) = BufferedSpyMetricSink::with_capacity(None, Some(cap));
+                let sink = Arc::new(spy);
+                let reader = std::thread::spawn(move || {
+                    let mut got: Vec<Vec<u8>> = vec![];
+                    loop {
+                        match rx.recv_timeout(Duration::from_millis(400)) {
+                            Ok(v) => got.push(v),
+                            Err(_) => {
+                                if st2.load(std::sync::atomic::Ordering::SeqCst) {
+                                    break;
+                                }
+                            }
+                        }
+                    }
+                    got
+                });
+                (sink, reader)
+            }
+        };
+        let per = if lossy { 150usize } else { 400usize };
         let mut hs = vec![];
         for t in 0..threads {
             let s = sink.clone();
@@ -294,7 +355,7 @@ pub fn c12_stress(sc: &Value) -> Value {
         let got = reader.join().unwrap();
         let _ = std::fs::remove_dir_all(&dir);
         if any_panic || fl.is_err() {
-            viol.push(json!({"prop": "C12", "clause": "no-panic", "detail": format!("round {} (capacity {}): an emit / flush panicked under concurrent use", round, cap)}));
+            viol.push(json!({"prop": "C12", "clause": "no-panic", "detail": format!("round {} ({}, capacity {}): an emit / flush panicked under concurrent use", round, kind, cap)}));
         }
         let mut seen: HashMap<String, usize> = HashMap::new();
         let mut order: Vec<String> = vec![];
@@ -303,8 +364,8 @@ pub fn c12_stress(sc: &Value) -> Value {
             let whole = text.ends_with('\n') || !text.contains('\n');
             let lines: Vec<&str> = text.split('\n').collect();
             let bad_line = lines.iter().any(|l| !l.is_empty() && !(l.starts_with('t') && l.ends_with(":1|c")));
-            if !whole || bad_line || (text.contains('\n') && d.len() > cap) || text.starts_with('\n') {
-                viol.push(json!({"prop": "C12", "clause": "line-atomic", "detail": format!("round {} (capacity {}): datagram {:?} is not a run of whole lines within the capacity", round, cap, text)}));
+            if !whole || bad_line || (text.contains('\n') && d.len() > cap) || text.starts_with('\n') || (!text.contains('\n') && !text.is_empty() && d.len() + 1 <= cap) {
+                viol.push(json!({"prop": "C12", "clause": "line-atomic", "detail": format!("round {} ({}, capacity {}): datagram {:?} is not a run of whole lines within the capacity", round, kind, cap, text)}));
                 break;
             }
             for l in lines {
@@ -317,7 +378,8 @@ pub fn c12_stress(sc: &Value) -> Value {
         if viol.is_empty() {
             for (t, acked) in acked_all.iter().enumerate() {
                 for m in acked {
-                    if seen.get(m).copied().unwrap_or(0) != 1 {
+                    let n = seen.get(m).copied().unwrap_or(0);
+                    if n != 1 && !(lossy && n == 0) {
                         viol.push(json!({"prop": "C12", "clause": "acknowledged-exactly-once", "detail": format!("round {}: metric {:?} acknowledged to thread {} appears {} times on the wire", round, m, t, seen.get(m).copied().unwrap_or(0))}));
                         break;
                     }
